@@ -115,6 +115,10 @@ EXTRA = {
 }
 # additions made during the third round of seeded changes
 EXTRA3 = {
+ "C05": " A foreign session may answer a server-issued request with an error object under the same id (not accepted either); a request may be given up before it is issued (context already cancelled): it fails and leaves nothing pending.",
+ "C10": " Handlers may emit notifications that cannot be encoded (NaN progress, a channel among the parameters) and go on: the later ones are delivered. 3-400 further handlers are registered by another goroutine while the calls are in flight; a call made afterwards reaches every one of them, in order.",
+ "C13": " One request in four carries a token of another class than its session's earlier requests: lists, context values and session data follow the request.",
+ "C14": " One client case in eight performs the handshake under a 150-300 ms deadline and makes its calls after that deadline has passed.",
  "C18": " TestC18Conc: 2-3 new type families per round are generated by 2-8 goroutines each, released together, every result judged by the same oracle, and a composite of all roots is generated afterwards in the three styles (name tables and caches left by the concurrent phase). TestC18Tools: 1-5 tools built from the same three struct types in all styles, some with properties added by builder options after the struct schema, registered one after the other: a tool names exactly its struct's JSON fields plus its own additions, keeps the schema it was registered with when other tools are built, and tools/list carries exactly that schema.",
  "C20": " The client workload runs next to 0-5 initialised sessions that hold no listening stream (sends to them fail) and issues filtered sends.",
  "C19": " With a configured request handler the handler may lose one request with a connection error (EOF) at a drawn request kind: it passed the before-request function once and reaches no server, and nothing is sent past the function afterwards (the three logs still agree). A legacy client's first connect GET may be refused with 503 and the handshake repeated under another context: the second connect carries the second handshake's context values.",
